@@ -346,8 +346,8 @@ class Run:
         for c in range(n):
             rng = random.Random('%d/verilog-design/%d' % (self.seed, c))
             size = rng.choice([1, 1, 2, 2, 3])
-            # multi-bit assigns and (C04) unnamed ports - open findings: such netlists cannot be written at all - only now and then
-            design = G.Gen(rng, size=size, features={'multi_assign': c % 6 == 0,
+            # (C04) unnamed ports - open finding: such netlists cannot be written at all - only now and then
+            design = G.Gen(rng, size=size, features={'multi_assign': True,
                                                       'positional_prims': self.prop == 'C06' or c % 8 == 1}).design()
             self.n_programs += 1
             h = common.sha(json.dumps(design))
